@@ -3,6 +3,7 @@ package engine
 import (
 	"crypto/sha256"
 	"fmt"
+	repocommon "github.com/nspcc-dev/neofs-contract/common"
 	"sort"
 	"strings"
 
@@ -317,7 +318,13 @@ func (d *AuthGrid) Eval(x *Exec, root *Node, gc GridCase) GridResult {
 		}
 		out = fmt.Sprintf("verify-%v", got)
 	case "update":
-		past := !o.Halt && strings.Contains(o.Fault, "contract is already of the latest version")
+		// past the authorisation check = stopped by the version gate (the message constant of common/version.go
+		// in this tree), or at least by something else than what stops a stranger
+		past := !o.Halt && strings.Contains(o.Fault, repocommon.ErrAlreadyUpdated)
+		if !o.Halt && !past {
+			so, _ := x.Do(root, Call{Script: Script(h, r.Method, r.Args(d, w)...), Signers: []util.Uint160{d.s.Hash}, Adv: adv, Label: gc.Name + " (stranger, for comparison)"})
+			past = !so.Halt && faultText(so.Fault) != faultText(o.Fault)
+		}
 		if !inert {
 			vs = append(vs, Viol("effect-without-witness", fmt.Sprintf("%s.update under %s changed state: %v", r.Contract, c.Signer, diff), where))
 		} else if past != sufficient {
